@@ -315,10 +315,19 @@ pub fn write_behind_programs() -> Vec<Program> {
         ("delete;tick|insert-other", vec![Op::Delete { k: K, ts: 0 }, Op::Tick], vec![ins(U, VU1)]),
         ("overwrite;tick|delete-other", vec![ins(K, V2), Op::Tick], vec![Op::Delete { k: U, ts: 0 }]),
         ("tick|insert;insert-other", vec![Op::Tick], vec![ins(K, V1B), ins(U, VU1)]),
+        // a delete / overwrite accepted while the key's FIRST write is being flushed by the round
+        ("insert;tick|delete-same", vec![ins(K, V1), Op::Tick], vec![Op::Delete { k: K, ts: 0 }]),
+        ("insert-other;tick|delete-other", vec![ins(U, VU1), Op::Tick], vec![Op::Delete { k: U, ts: 0 }]),
     ];
     for (name, a, b) in bodies {
         for (iname, setup) in [("empty", vec![]), ("both-durable", vec![ins(K, V1), ins(U, VU1), Op::Flush]), ("one-buffered", vec![ins(K, V1), Op::Flush, ins(U, VU1)])] {
-            if (name.starts_with("delete") || name.contains("delete-other")) && iname == "empty" {
+            if (name.starts_with("delete") || name == "overwrite;tick|delete-other") && iname == "empty" {
+                continue;
+            }
+            if name.contains("delete-same") && iname != "empty" {
+                continue;
+            }
+            if name.starts_with("insert-other;tick") && iname != "empty" {
                 continue;
             }
             v.push(Program {
